@@ -214,6 +214,40 @@ var c11Domains = []string{"b", "example.org", "a-b.c-d.e", "[127.0.0.1]", "[IPv6
 func genMailbox(t *rapid.T, utf8ok bool) string {
 	l := rapid.SampledFrom(c11Locals).Draw(t, "local")
 	d := rapid.SampledFrom(c11Domains).Draw(t, "domain")
+	if rapid.IntRange(0, 2).Draw(t, "mb_free") == 0 {
+		// put together: dot-atoms of atext, or a quoted string of qtext and
+		// quoted pairs; a domain of labels, or an address literal
+		atoms := []string{"a", "Z9", "x-y", "u+t", "!#$", "%&'", "*+-", "/=?", "^_`", "{|}", "~", "0"}
+		if rapid.IntRange(0, 3).Draw(t, "mb_quoted") == 0 {
+			q := []string{"a", " ", "@", ".", "<", ">", ",", ";", ":", "(", ")", "[", "]", "\\\\", "\\\"", "\\a", "\\ ", "!", "{}"}
+			var sb strings.Builder
+			sb.WriteByte('"')
+			for i, n := 0, rapid.IntRange(1, 5).Draw(t, "mb_qn"); i < n; i++ {
+				sb.WriteString(rapid.SampledFrom(q).Draw(t, "mb_q"))
+			}
+			sb.WriteByte('"')
+			l = sb.String()
+		} else {
+			var parts []string
+			for i, n := 0, rapid.IntRange(1, 4).Draw(t, "mb_an"); i < n; i++ {
+				parts = append(parts, rapid.SampledFrom(atoms).Draw(t, "mb_atom"))
+			}
+			l = strings.Join(parts, ".")
+		}
+		switch rapid.IntRange(0, 5).Draw(t, "mb_dom") {
+		case 0:
+			d = fmt.Sprintf("[%d.%d.%d.%d]", rapid.IntRange(0, 255).Draw(t, "ip"), rapid.IntRange(0, 255).Draw(t, "ip"), rapid.IntRange(0, 255).Draw(t, "ip"), rapid.IntRange(0, 255).Draw(t, "ip"))
+		case 1:
+			d = "[IPv6:" + rapid.SampledFrom([]string{"::1", "2001:db8::1", "fe80::1:2:3:4", "::ffff:1.2.3.4", "1:2:3:4:5:6:7:8"}).Draw(t, "ip6") + "]"
+		default:
+			labels := []string{"a", "b1", "x-y", "example", "ORG", "9", "a--b", "xn--bcher-kva"}
+			var parts []string
+			for i, n := 0, rapid.IntRange(1, 4).Draw(t, "mb_ln"); i < n; i++ {
+				parts = append(parts, rapid.SampledFrom(labels).Draw(t, "mb_label"))
+			}
+			d = strings.Join(parts, ".")
+		}
+	}
 	if utf8ok && rapid.IntRange(0, 3).Draw(t, "u8") == 0 {
 		l = rapid.SampledFrom([]string{"üser", "用户", "a😀b"}).Draw(t, "ulocal")
 		if rapid.Bool().Draw(t, "udom") {
@@ -227,7 +261,44 @@ var c11Times = []string{"2014-04-03T23:01:00Z", "1999-12-31T23:59:59Z", "2024-02
 
 func genXtextValue(t *rapid.T, label string) (raw, enc string) {
 	raw = rapid.SampledFrom([]string{"abc", "QQ314159", "a+b=c", "with space", "x", "~!@#", "a\\b", "100%", "tab?", strings.Repeat("e", 100), "rfc822;looks"}).Draw(t, label)
+	if rapid.Bool().Draw(t, label+"_free") {
+		// put together from pieces: any printable ASCII, the characters that
+		// must be encoded among them
+		pieces := []string{"a", "Z", "7", "+", "=", " ", "+2B", "+3D", "2B", "\\", "\"", "<", ">", "@", ";", ",", ".", "%", "~", "!", "(", ")", "{", "}", "'", "/", "?", "^", "_", "`", "|", "-", ":"}
+		var sb strings.Builder
+		for i, n := 0, rapid.IntRange(1, 8).Draw(t, label+"_n"); i < n; i++ {
+			sb.WriteString(rapid.SampledFrom(pieces).Draw(t, label+"_piece"))
+		}
+		raw = sb.String()
+	}
 	return raw, ref.XtextEncode(raw, rapid.IntRange(0, 4).Draw(t, label+"_all") == 0)
+}
+
+// genDateTime draws an RFC 3339 date-time component by component.
+func genDateTime(t *rapid.T, label string) string {
+	year := rapid.SampledFrom([]int{1, 1969, 1970, 1999, 2000, 2014, 2024, 2038, 2100, 9999}).Draw(t, label+"_y")
+	if rapid.Bool().Draw(t, label+"_anyyear") {
+		year = rapid.IntRange(1, 9999).Draw(t, label+"_year")
+	}
+	month := rapid.IntRange(1, 12).Draw(t, label+"_mo")
+	dim := []int{31, 28, 31, 30, 31, 30, 31, 31, 30, 31, 30, 31}[month-1]
+	if month == 2 && year%4 == 0 && (year%100 != 0 || year%400 == 0) {
+		dim = 29
+	}
+	day := rapid.SampledFrom([]int{1, dim, rapid.IntRange(1, dim).Draw(t, label+"_d")}).Draw(t, label+"_day")
+	s := fmt.Sprintf("%04d-%02d-%02dT%02d:%02d:%02d", year, month, day, rapid.IntRange(0, 23).Draw(t, label+"_h"), rapid.IntRange(0, 59).Draw(t, label+"_mi"), rapid.IntRange(0, 59).Draw(t, label+"_s"))
+	if rapid.IntRange(0, 3).Draw(t, label+"_frac") == 0 {
+		s += "." + rapid.StringMatching(`[0-9]{1,9}`).Draw(t, label+"_fraction")
+	}
+	switch rapid.IntRange(0, 2).Draw(t, label+"_zone") {
+	case 0:
+		s += "Z"
+	case 1:
+		s += fmt.Sprintf("+%02d:%02d", rapid.IntRange(0, 14).Draw(t, label+"_zh"), rapid.SampledFrom([]int{0, 30, 45, 59}).Draw(t, label+"_zm"))
+	default:
+		s += fmt.Sprintf("-%02d:%02d", rapid.IntRange(0, 12).Draw(t, label+"_zh"), rapid.SampledFrom([]int{0, 30, 1}).Draw(t, label+"_zm"))
+	}
+	return s
 }
 
 func genValidLine(t *rapid.T, mail bool, f ref.Flags) string {
@@ -256,7 +327,11 @@ func genValidLine(t *rapid.T, mail bool, f ref.Flags) string {
 	add := func(s string) { ps = append(ps, s) }
 	if mail {
 		if rapid.Bool().Draw(t, "p_size") {
-			add(randCase(t, "SIZE", "kc") + "=" + rapid.SampledFrom([]string{"0", "1", "1024", "4294967295", "4294967296", "9223372036854775807", "12345678901234567"}).Draw(t, "size"))
+			sz := rapid.SampledFrom([]string{"0", "1", "1024", "4294967295", "4294967296", "9223372036854775807", "12345678901234567"}).Draw(t, "size")
+			if rapid.Bool().Draw(t, "size_free") {
+				sz = rapid.StringMatching(`[1-9][0-9]{0,17}`).Draw(t, "size_digits")
+			}
+			add(randCase(t, "SIZE", "kc") + "=" + sz)
 		}
 		if rapid.Bool().Draw(t, "p_body") {
 			b := []string{"7BIT", "8BITMIME", "8bitmime", "7bit"}
@@ -277,6 +352,9 @@ func genValidLine(t *rapid.T, mail bool, f ref.Flags) string {
 		}
 		if rapid.Bool().Draw(t, "p_auth") {
 			a := rapid.SampledFrom([]string{"<>", "user@example.org", "a+b@c", "first.last@d.e", "x=y@z"}).Draw(t, "auth")
+			if rapid.Bool().Draw(t, "auth_free") {
+				a = genMailbox(t, false)
+			}
 			add(randCase(t, "AUTH", "kc") + "=" + ref.XtextEncode(a, rapid.IntRange(0, 4).Draw(t, "auth_all") == 0))
 		}
 	} else {
@@ -294,7 +372,11 @@ func genValidLine(t *rapid.T, mail bool, f ref.Flags) string {
 			}
 		}
 		if f.RRVS && rapid.Bool().Draw(t, "p_rrvs") {
-			add(randCase(t, "RRVS", "kc") + "=" + rapid.SampledFrom(c11Times).Draw(t, "rrvs") + rapid.SampledFrom([]string{"", ";C", ";R"}).Draw(t, "rrvsact"))
+			ts := rapid.SampledFrom(c11Times).Draw(t, "rrvs")
+			if rapid.Bool().Draw(t, "rrvs_free") {
+				ts = genDateTime(t, "rrvs_dt")
+			}
+			add(randCase(t, "RRVS", "kc") + "=" + ts + rapid.SampledFrom([]string{"", ";C", ";R"}).Draw(t, "rrvsact"))
 		}
 	}
 	ps = rapid.Permutation(ps).Draw(t, "porder")
